@@ -20,14 +20,21 @@ ASSUMPTIONS = ['states with equal canonical snapshots have equal futures (checke
                'outputs inside nested contexts are not judged, only the state left behind once the stack is empty']
 
 RENDERERS = [('Html', {}), ('Html', dict(process_html_tokens=False)), ('Markdown', {}), ('LaTeX', {}), ('Ast', {}), ('Toc', {}),
-             ('GithubWiki', {}), ('MathJax', {}), ('Pygments', {}), ('Jira', {}), ('XWiki20', {})]
+             ('GithubWiki', {}), ('MathJax', {}), ('Pygments', {}), ('Jira', {}), ('XWiki20', {}),
+             ('Pygments', dict(fail_on_unsupported_language=True))]
+# option variants that are only observed (never entered as history operations): a result must not depend on which options
+# earlier renderer instances were created with
+OBS_EXTRA = [('Html', dict(html_escape_double_quotes=True, html_escape_single_quotes=True)),
+             ('Markdown', dict(max_line_length=10, normalize_whitespace=True)), ('Toc', dict(omit_title=False, depth=2))]
 PROBES = ['# h #\n', 't\n===\n', '> q\nl\n---\n', '```py\nc\n```\n', '<!-- c\n-->\n\n<div>\nx\n\ny\n', 'a `c` b\n',
           '[r]\n\n[r]: /u "t"\n', '|a|b|\n|-|-|\n|c|d|\n', '&amp; &copy;\n', '$m$ [[w|l]]\n', '{{m}}\nx\n{{/m}}\n', 'hello world\n',
           '<?p\n?>\n\n<b\nc>\n', '> ```\n> x\n\n* a\n\n  b\n', 'l1\n\n> l2\n> t\n> ===\n\n- l3 `c`\n',
           '<x-y>\nin\n\nafter *x*\n', '<pre>\nin\n\nstill\n</pre>\n\nafter *x*\n', '<!X y>\n\nafter *x*\n',
           '<![CDATA[\nin\n\n]]>\n\nafter *x*\n', '</x-y>\n\nafter *x*\n',
           # entity handling outside the inline tokenizer (definitions, info strings) depends on which pattern html._charref holds
-          '[r]: /u?a&copy=1 "t&lt x&ampy"\n\n[r]\n', '``` a&copy&amp\nc\n```\n\n> [q]: <&reg> (&copy)\n>\n> ![q]\n']
+          '[r]: /u?a&copy=1 "t&lt x&ampy"\n\n[r]\n', '``` a&copy&amp\nc\n```\n\n> [q]: <&reg> (&copy)\n>\n> ![q]\n',
+          # a code block in a language Pygments does not know (strict mode refuses it, lenient mode guesses) and one it knows
+          '```frobnicate\nlet x = 1\n```\n\n```python\nx = 1\n```\n']
 FAULT_PROBES = [2, 5, 6, 13, 14]
 # second part of the observation vector: every text of <= 2 (thorough: 3) lines over the line alphabet under the
 # renderers whose constructors do not all touch the token lists (so that state left behind by an earlier context
@@ -35,7 +42,7 @@ FAULT_PROBES = [2, 5, 6, 13, 14]
 WIDE_RENDERERS = [('Html', {}), ('Html', dict(process_html_tokens=False)), ('Ast', {}), ('Markdown', {})]
 WIDE_LINES = {'quick': 2, 'thorough': 2}
 _WIDE_K = 2
-FAULT_KINDS = ['find', 'sctor', 'start', 'read', 'bctor']
+FAULT_KINDS = ['find', 'sctor', 'start', 'read', 'bctor', 'render']
 BOUNDS = {'quick': dict(depth=4, fault_depth=2, baseline='one-subprocess'),
           'thorough': dict(depth=6, fault_depth=3, baseline='subprocess-per-probe')}
 
@@ -60,7 +67,7 @@ def make_fault(kind):
         st['n'] += 1
         if st['k'] is not None and st['n'] == st['k']:
             raise Fault()
-    if kind in ('find', 'sctor'):
+    if kind in ('find', 'sctor', 'render'):
         class Boom(span_token.SpanToken):
             pattern = re.compile(r'[a-z]')
             parse_inner = False
@@ -70,10 +77,11 @@ def make_fault(kind):
             def find(cls, s):
                 if kind == 'find':
                     tick()
-                return list(cls.pattern.finditer(s))[:1] if kind == 'sctor' else []
+                return list(cls.pattern.finditer(s))[:1] if kind in ('sctor', 'render') else []
 
             def __init__(self, m):
-                tick()
+                if kind != 'render':
+                    tick()
                 self.content = m.group(0)
     else:
         class Boom(block_token.BlockToken):
@@ -94,6 +102,8 @@ def make_fault(kind):
                 if kind == 'bctor':
                     tick()
                 self.children = []
+    Boom._tick = staticmethod(tick)
+    Boom._kind = kind
     return Boom, st
 
 
@@ -123,6 +133,8 @@ def fault_renderer_class():
 
     class FaultRenderer(HtmlRenderer):
         def render_boom(self, t):
+            if type(t)._kind == 'render':
+                type(t)._tick()        # the exception is raised while rendering, after a complete parse
             return ''
     return FaultRenderer
 
@@ -130,8 +142,14 @@ def fault_renderer_class():
 def apply(op, stack):
     from mistletoe import Document, span_token, block_token
     if op[0] == 'enter':
-        name, kw = RENDERERS[op[1]]
-        r = configs.renderer_class(name)(**kw)
+        if op[1] == len(RENDERERS):
+            # contrib/scheme.py: a renderer that replaces both token lists outright in its constructor (entered as a
+            # history operation only; its own output is not part of the observation vector)
+            from mistletoe.contrib.scheme import Scheme
+            r = Scheme()
+        else:
+            name, kw = RENDERERS[op[1]]
+            r = configs.renderer_class(name)(**kw)
         r.__enter__()
         stack.append(r)
     elif op[0] == 'exit':
@@ -151,13 +169,21 @@ def apply(op, stack):
         st['k'] = k
         try:
             with fault_renderer_class()(Boom) as r:
-                mod = span_token if kind in ('find', 'sctor') else block_token
+                mod = span_token if kind in ('find', 'sctor', 'render') else block_token
                 mod.remove_token(Boom)
                 mod.add_token(Boom, pos)
                 r.render(Document(PROBES[j]))
         except Fault:
             pass
         return st['n']
+
+
+def token_list_names():
+    from mistletoe import span_token, block_token
+    return [[t.__name__ for t in block_token._token_types], [t.__name__ for t in span_token._token_types]]
+
+
+_DEFAULT_LISTS = None
 
 
 def build(hist):
@@ -173,7 +199,7 @@ def build(hist):
 
 def state_key(stack):
     s = pristine.canon()
-    inst = [(type(r).__name__, repr(pristine._canon_val({k: v for k, v in vars(r).items() if k != 'render_map'}))) for r in stack]
+    inst = [(type(r).__name__, repr(pristine._canon_val({k: v for k, v in vars(r).items() if k not in ('render_map', 'env')}))) for r in stack]
     blob = json.dumps([s, inst], sort_keys=True, default=str)
     return hashlib.sha1(blob.encode()).hexdigest()
 
@@ -181,7 +207,7 @@ def state_key(stack):
 def enabled(hist, depth_stack, fops, fault_ok):
     ops = []
     if depth_stack < 2:
-        ops += [('enter', i) for i in range(len(RENDERERS))]
+        ops += [('enter', i) for i in range(len(RENDERERS) + 1)]
     if depth_stack > 0:
         ops.append(('exit',))
         ops += [('addtok', 'block'), ('addtok', 'span')]
@@ -198,7 +224,7 @@ def fault_ops():
     for kind in FAULT_KINDS:
         pristine.restore()
         with fault_renderer_class()():
-            npos = len(span_token._token_types) if kind in ('find', 'sctor') else len(block_token._token_types) + 1
+            npos = len(span_token._token_types) if kind in ('find', 'sctor', 'render') else len(block_token._token_types) + 1
         for pos in range(npos):
             for j in FAULT_PROBES:
                 pristine.restore()
@@ -218,7 +244,7 @@ def observe():
     cap = pristine.capture()
     out = []
     for d in PROBES:
-        for name, kw in RENDERERS:
+        for name, kw in RENDERERS + OBS_EXTRA:
             pristine.reinstate(cap)
             try:
                 with configs.renderer_class(name)(**kw) as r:
@@ -295,7 +321,7 @@ def wide_detail(base_state_hist):
 def obs_labels():
     labels = []
     for d in PROBES:
-        for name, kw in RENDERERS:
+        for name, kw in RENDERERS + OBS_EXTRA:
             labels.append('%s%s on %r' % (name, kw or '', d))
         labels.append('AST of %r' % d)
     labels += ['block token list', 'span token list']
@@ -363,7 +389,14 @@ def w_expand(args):
             except Exception:
                 pass
             n += 1
-            res.append((tuple(hist) + (op,), state_key(stack), len(stack)))
+            bad_exit = None
+            if op[0] == 'exit':
+                # "After a renderer's context exits, the active block and span token sets are exactly the defaults" -
+                # judged after EVERY exit, also while an outer context is still open
+                now = token_list_names()
+                if now != _DEFAULT_LISTS:
+                    bad_exit = now
+            res.append((tuple(hist) + (op,), state_key(stack), len(stack), bad_exit))
             for s in reversed(stack):
                 try:
                     s.__exit__(None, None, None)
@@ -392,8 +425,10 @@ def w_observe(args):
 
 
 def explore(tier, seed):
-    global _BASE, _FOPS, _WIDE_K
+    global _BASE, _FOPS, _WIDE_K, _DEFAULT_LISTS
     b = BOUNDS[tier]
+    pristine.restore()
+    _DEFAULT_LISTS = token_list_names()
     _WIDE_K = WIDE_LINES[tier]
     pristine.restore()
     _BASE = baseline(b['baseline'])
@@ -431,7 +466,10 @@ def explore(tier, seed):
                 new.extend(res)
             new.sort(key=lambda x: (len(x[0]), repr(x[0])))      # deterministic representative per state
             fresh_states = []
-            for hist, key, sd in new:
+            for hist, key, sd, bad_exit in new:
+                if bad_exit is not None:
+                    agg.fail(dict(history=[list(op) for op in hist], after_exit=True), 'token-sets-not-default-after-exit',
+                             detail='token lists right after the last exit of this history', expected=_DEFAULT_LISTS, observed=bad_exit)
                 if key in seen:
                     continue
                 seen[key] = hist
@@ -503,6 +541,14 @@ def replay(case):
         res = instance_reuse()
         if case['renderer'] in res:
             return dict(sig='second-document-on-one-instance-differs:' + case['renderer'], detail=json.dumps(res[case['renderer']])[:300])
+        return None
+    if case.get('after_exit'):
+        pristine.restore()
+        want = token_list_names()
+        build([tuple(op) for op in case['history']])
+        now = token_list_names()
+        if now != want:
+            return dict(sig='token-sets-not-default-after-exit', expected=want, observed=now)
         return None
     pristine.restore()
     base = observe()
